@@ -206,7 +206,7 @@ static struct pkt {
     uint8_t d[188];
     int au;                 /* unit it carries, -1 none */
     int payload_off, payload_len;
-    bool pusi, dup, af_only, lost, corrupt, rai;
+    bool pusi, dup, af_only, lost, corrupt, rai, disci;
     uint64_t segsel;
     int fault;
 } pkts[MAXPKT];
@@ -273,7 +273,9 @@ static void packetise(void)
             /* adaptation field: needed to pad the last packet of the PES, to
              * carry a PCR or the random access indicator, or just for stuffing */
             bool pcr = (flags & 1) != 0;
-            int af_min = p->rai || pcr ? (pcr ? 8 : 2) : 0;    /* octets taken by the AF including its length */
+            /* (sometimes the sender signals a discontinuity itself: discontinuity_indicator) */
+            p->disci = (flags & 16) != 0;
+            int af_min = p->rai || pcr || p->disci ? (pcr ? 8 : 2) : 0;    /* octets taken by the AF including its length */
             int wish = op ? (int)((uint64_t)op->a[0] % 190) : 0;
             int af = af_min;
             if (wish > af && wish <= 183)
@@ -288,7 +290,9 @@ static void packetise(void)
             if (af > 0) {
                 p->d[4] = (uint8_t)(af - 1);
                 if (af > 1) {
-                    p->d[5] = (uint8_t)((p->rai ? 0x40 : 0) | (pcr && af >= 8 ? 0x10 : 0));
+                    p->d[5] = (uint8_t)((p->disci ? 0x80 : 0) | (p->rai ? 0x40 : 0) | (pcr && af >= 8 ? 0x10 : 0));
+                    if (p->disci)
+                        SIM_PROBE("ts_discontinuity_indicator");
                     memset(p->d + 6, 0xff, (size_t)(af - 2));
                     if (pcr && af >= 8) {
                         uint64_t v = (uint64_t)npkt * 54321;
@@ -302,6 +306,8 @@ static void packetise(void)
                 if (af >= 183)
                     SIM_PROBE("ts_adaptation_field_183");
             }
+            if (af < 2)
+                p->disci = false;
             p->payload_off = 4 + af;
             p->payload_len = pl;
             memcpy(p->d + 4 + af, pes + off, (size_t)pl);
@@ -1194,7 +1200,16 @@ static void run_decaps(int kind)
         sim_ev("packet", (uint64_t)i, (uint64_t)p->pusi | (uint64_t)p->dup << 1 | (uint64_t)p->af_only << 2 | (uint64_t)p->corrupt << 3);
         if (p->fault && ((uint64_t)plan->cfg[CFG_FAULTS] & 1))
             sim_alloc_arm(p->fault);
+        if (p->disci && !p->corrupt)
+            gap_optional[i] = true;     /* what it gives may come out flagged */
+        int nchunk0 = nchunk;
         upipe_input(head, uref, NULL);
+        /* the second copy of a packet is recognised and dropped, whatever the
+         * packet carries (the pipeline is synchronous: nothing else can come
+         * out while it is fed) */
+        if (p->dup && !p->corrupt && nchunk > nchunk0 && checking() && !fault_fired)
+            sim_violation(V_PAYLOAD, "packet %d is an exact duplicate of packet %d, it made %d chunk(s) come out%s", i, i - 1,
+                          nchunk - nchunk0, p->disci ? " (the packet carries a discontinuity indicator)" : "");
         if (sim_alloc_disarm() == 0 && p->fault && ((uint64_t)plan->cfg[CFG_FAULTS] & 1)) {
             fault_fired = true;
             SIM_PROBE("fault_alloc_in_input");
@@ -1240,7 +1255,7 @@ static void run_decaps(int kind)
             break;
         bool touched = false;
         for (int i = a->first_pkt; i <= a->last_pkt; i++)
-            touched = touched || pkts[i].lost;
+            touched = touched || pkts[i].lost || pkts[i].disci;
         /* a gap right behind the unit glues foreign chunks to it only if the
          * next unit start was lost too; those come with a discontinuity flag
          * and therefore start a new segment */
@@ -1386,7 +1401,7 @@ static void gen(const char *pr, struct sim_rng *r, struct sim_plan *p)
     for (int i = 0; i < np; i++) {
         uint32_t wish = style == 0 ? 0 : style == 1 ? sim_rng_below(r, 190) : sim_rng_chance(r, 1, 3) ? sim_rng_below(r, 190) : 0;
         uint32_t flags = (sim_rng_chance(r, 1, 8) ? 1 : 0) | (sim_rng_chance(r, 1, 10) ? 2 : 0) | (sim_rng_chance(r, 1, 12) ? 4 : 0) |
-                         (sim_rng_chance(r, 1, 16) ? 8 : 0);
+                         (sim_rng_chance(r, 1, 16) ? 8 : 0) | (sim_rng_chance(r, 1, 12) ? 16 : 0);
         uint32_t dmg = 0;
         if (damage == 1 && sim_rng_chance(r, 1, 10)) dmg = 1;
         else if (damage == 2 && sim_rng_chance(r, 1, 10)) dmg = 1 + sim_rng_below(r, 2);
